@@ -411,10 +411,62 @@ func ruleR19_3(c *Check) {
 	}
 }
 
+// R19.4: whether a table has a filter is read from the table, not from today's options.
+func ruleR19_4(c *Check) {
+	w := c.W
+	r := c.Rule("R19.4", "E3+E4", 3, "a table knows whether it has a bloom filter from its own index (Table.hasBloomFilter is assigned from the length of index.BloomFilterBytes()); Options.BloomFalsePositive — a build-time setting that can differ between the session that wrote a table and the one that reads it — is used only by the Builder; DoesNotHave probes only under hasBloomFilter",
+		"a table written without a filter and re-opened with filters enabled (the default) would probe an empty filter, which answers 'absent' for every key: every Get and key iterator skips the table and its keys disappear after re-open")
+	hb := w.Field("table.Table.hasBloomFilter")
+	bfp := w.Field("table.Options.BloomFalsePositive")
+	n := 0
+	for _, o := range allStores(w, hb) {
+		as, ok := o.Node.(*ast.AssignStmt)
+		if !ok || len(as.Rhs) != 1 {
+			continue
+		}
+		n++
+		fromFile := false
+		ast.Inspect(w.Origin(o.SiteFn, as.Rhs[0]), func(m ast.Node) bool {
+			if call, ok := m.(*ast.CallExpr); ok && w.Callee(call) != nil && w.Callee(call).Name() == "BloomFilterBytes" {
+				fromFile = true
+			}
+			return true
+		})
+		r.Check(fromFile && !w.mentions(as.Rhs[0], bfp), o.SiteFn, "filter presence read from the table's index", as, "hasBloomFilter is assigned "+short(w, as.Rhs[0])+", which is not derived from the stored filter bytes")
+	}
+	r.Exists(n >= 1, nil, "hasBloomFilter assignment", nil, "Table.hasBloomFilter is never assigned")
+	uses := 0
+	for _, o := range allSites(w, "", selUse(bfp)) {
+		root := o.SiteFn.Root()
+		if root.Obj == nil {
+			continue
+		}
+		uses++
+		okUse := shortPkg(o.SiteFn.Pkg) != "table"
+		if sig, _ := root.Obj.Type().(*types.Signature); sig != nil && sig.Recv() != nil && namedIs(sig.Recv().Type(), modPath+"/table", "Builder") {
+			okUse = true
+		}
+		if root.Name == "table.NewTableBuilder" {
+			okUse = true
+		}
+		r.Check(okUse, o.SiteFn, "BloomFalsePositive consulted only when building", o.Node, "the table reader consults the current BloomFalsePositive setting: tables written under another setting are misread")
+	}
+	r.Exists(uses >= 1, nil, "BloomFalsePositive uses", nil, "Options.BloomFalsePositive is not used at all")
+	dn := w.F("table.Table.DoesNotHave")
+	for _, s := range dn.Sites(selPred("MayContain", func(w *World, fn *Fn, n ast.Node) bool {
+		call, ok := n.(*ast.CallExpr)
+		return ok && w.Callee(call) != nil && w.Callee(call).Name() == "MayContain"
+	})) {
+		okG := HasGuard(w.Guards(dn, s), true, func(e ast.Expr) bool { return w.fieldOf(e) == hb }) != nil
+		r.Check(okG, dn, "filter probed only when the table has one", s, "MayContain is evaluated without hasBloomFilter being true")
+	}
+}
+
 func propC19(c *Check) {
 	ruleR19_1(c)
 	ruleR19_2(c)
 	ruleR19_3(c)
+	ruleR19_4(c)
 }
 
 // ---- C20 / C16 codecs ----
